@@ -30,3 +30,12 @@ void log_vmessage(struct log_type *type, enum log_severity sev, const char *form
 #ifndef VP_HAVE_MODULE
 void module_close_all(void) {}
 #endif
+
+#ifndef VP_HAVE_LOG
+static int vp_dummy_log_type;
+struct log_type *log_type_register(const char *name, const char *default_target)
+{
+    (void)name; (void)default_target;
+    return (struct log_type *)&vp_dummy_log_type;
+}
+#endif
